@@ -26,3 +26,28 @@ func VerifAddTx(h *Hub, topic, ua string, deltaNs, size float64) int {
 	}
 	return n
 }
+
+// VerifRewindLast moves the "last message" time stamp of every member of topic whose user agent is ua
+// into the past: the connection has then been quiet for `ago` (tx, and rx as well if both is set).
+// Only the time stamp changes, under the same lock the pumps take.
+func VerifRewindLast(h *Hub, topic, ua string, ago time.Duration, both bool) int {
+	h.mu.RLock()
+	defer h.mu.RUnlock()
+	n := 0
+	for c := range h.clients[topic] {
+		if c.userAgent == ua {
+			c.stats.tx.mu.Lock()
+			c.stats.tx.last = time.Now().Add(-ago)
+			c.stats.tx.mu.Unlock()
+			if both {
+				c.stats.rx.mu.Lock()
+				c.stats.rx.ns.Add(1e6)
+				c.stats.rx.size.Add(7)
+				c.stats.rx.last = time.Now().Add(-ago)
+				c.stats.rx.mu.Unlock()
+			}
+			n++
+		}
+	}
+	return n
+}
